@@ -44,6 +44,9 @@ type authorizer struct {
 	policies []Policy
 
 	dirty bool
+
+	// world options given at creation, accumulated over all WithWorldOptions values
+	worldOptions []datalog.WorldOption
 }
 
 var _ Authorizer = (*authorizer)(nil)
@@ -52,7 +55,10 @@ type AuthorizerOption func(w *authorizer)
 
 func WithWorldOptions(opts ...datalog.WorldOption) AuthorizerOption {
 	return func(a *authorizer) {
-		a.baseWorld = datalog.NewWorld(opts...)
+		// several WithWorldOptions values add up: a later one must not drop the
+		// limits supplied by an earlier one
+		a.worldOptions = append(a.worldOptions, opts...)
+		a.baseWorld = datalog.NewWorld(a.worldOptions...)
 	}
 }
 
